@@ -1,7 +1,194 @@
-import AgVerif.Model.Axml
-namespace AgVerif.C26
-open AgVerif.Axml
+/-
+C26 — Binary XML is converted to the XML tree it encodes.   Property theorems only.
 
-theorem stub : fixValue [] = [] := by decide
+Model: AgVerif.Axml (Model/Axml.lean: ARSCHeader, StringBlock, AXMLParser, AXMLPrinter, _fix_name, _fix_value, format_value,
+with the two C26 fixes applied).  Spec: AgVerif.Spec.Axml (abstract tree = `Node`, chunk event sequence of a tree, text normal
+form, XML character classes, length-prefix encodings of ResStringPool).
+
+What is proved: the printer's element stack rebuilds exactly the tree whose chunk events it is fed (any tree, any depth, text
+chunks anywhere); `_fix_name` / `_fix_value` are the identity on legal names / values and always produce legal values; the value
+string of each integer-like Res_value type; the four length-prefix forms of pool strings decode to the encoded length.
+What is not proved here (covered by the correspondence and the oracle only): the composition over whole files (offset tables,
+chunk sizes: `C26_full`), UTF-8 / UTF-16 character decoding round trips, and everything inside lxml.
+-/
+import AgVerif.Proof.Axml
+namespace AgVerif.C26
+open AgVerif.Axml AgVerif.Spec.Axml AgVerif.Proof.Axml AgVerif.Gen.AxmlConsts
+
+/-- The full property for a given file encoder (the independent writer harness/axmlwriter.py plays this role in the
+    correspondence): every well-formed tree is printed back from its file.  Not proved; see the header. -/
+def C26_full (encode : Node → Bool → Bytes) (opq : Nat → Nat → Str) : Prop :=
+  ∀ (t : Node) (utf8 : Bool), isText t = false → Normal t → TextsOk t →
+    printAxml opq (encode t utf8) = .ok (true, some t)
+
+/-- Tree building (`axml_roundtrip` at the level of chunk events): for every element tree, feeding the printer the events
+    START_ELEMENT / CDATA / END_ELEMENT of the tree followed by END_DOCUMENT yields that tree, text chunks merged in
+    document order. -/
+theorem axml_roundtrip_events_partial (tag ns : Str) (attrs : List Attr) (kids : List Node) (h : TextsOkL kids) :
+    ∃ p, runEvents (events (.elem tag ns attrs kids) ++ [.endDoc]) Printer.init = .ok p ∧
+      p.result = some (norm (.elem tag ns attrs kids)) := by
+  refine ⟨⟨some (norm (.elem tag ns attrs kids)), true, [], true⟩, ?_, rfl⟩
+  simp only [events, List.cons_append, List.append_assoc]
+  rw [runEvents_cons _ _ Printer.init (inside none ⟨tag, ns, attrs, []⟩ [])]
+  · rw [run_list kids _ none ⟨tag, ns, attrs, []⟩ [] h]
+    simp [runEvents, applyEv, inside, norm, Open.close]
+  · simp [applyEv, Printer.init, inside]
+  · rfl
+
+/-- … and a tree already in normal form (no empty and no adjacent text chunks) is rebuilt exactly. -/
+theorem axml_roundtrip_normal (tag ns : Str) (attrs : List Attr) (kids : List Node)
+    (h : TextsOkL kids) (hn : Normal (.elem tag ns attrs kids)) :
+    ∃ p, runEvents (events (.elem tag ns attrs kids) ++ [.endDoc]) Printer.init = .ok p ∧
+      p.result = some (.elem tag ns attrs kids) := by
+  obtain ⟨p, h1, h2⟩ := axml_roundtrip_events_partial tag ns attrs kids h
+  exact ⟨p, h1, by rw [h2, norm_normal _ hn]⟩
+
+/-- attributes with pairwise different (namespace, name) are kept in order (`elem.set` never overwrites) -/
+theorem attrs_distinct_kept (a : Attr) (l : List Attr) (h : ∀ b ∈ l, ¬ (b.ns = a.ns ∧ b.name = a.name)) :
+    setAttr a l = l ++ [a] := setAttr_fresh a l h
+
+/-- `_fix_value` is the identity on strings of XML characters … -/
+theorem fix_identity_on_legal_value (v : Str) (h : LegalValue v) : fixValue v = v := by
+  have h0 : ∀ c ∈ v, c ≠ 0 := fun c hc => by have := h c hc; unfold XmlChar at this; omega
+  have htw : v.takeWhile (fun x => decide (x ≠ 0)) = v :=
+    takeWhile_all v (fun c hc => by simpa using h0 c hc)
+  have hall : v.all (inClass valueMatchClass) = true := by
+    rw [List.all_eq_true]; intro c hc; exact (valueClass_iff c).2 (h c hc)
+  simp only [fixValue]
+  rw [htw]
+  simp only [hall, if_true]
+
+/-- … and whatever it returns consists of XML characters only. -/
+theorem fix_value_legal (v : Str) : LegalValue (fixValue v) := by
+  intro c hc
+  unfold fixValue at hc
+  simp only at hc
+  split at hc
+  · rename_i hall
+    rw [List.all_eq_true] at hall
+    exact (valueClass_iff c).1 (hall c hc)
+  · simp only [List.mem_map] at hc
+    obtain ⟨x, _, rfl⟩ := hc
+    split
+    · rename_i hk; rw [valueKeep_eq_match] at hk; exact (valueClass_iff x).1 hk
+    · unfold XmlChar; omega
+
+/-- `_fix_name` is the identity on legal names, whatever the namespace context. -/
+theorem fix_identity_on_legal_name (s : PState) (uri n : Str) (h : LegalName n) : fixName s uri n = .ok (uri, n) := by
+  match n, h with
+  | c :: r, h =>
+    simp only [LegalName] at h
+    have hc : NameChar c := Or.inl h.1
+    have hall : ∀ x ∈ c :: r, NameChar x := by
+      intro x hx; simp only [List.mem_cons] at hx; rcases hx with rfl | hx; exact hc; exact h.2 x hx
+    have hcolon : ∀ x ∈ c :: r, x ≠ 0x3A := by
+      intro x hx; have := hall x hx; unfold NameChar NameStart at this; omega
+    have h80 : ¬ c ≥ 0x80 := by have := h.1; unfold NameStart at this; omega
+    have hstart : ¬ (!isAsciiAlpha c ∧ c ≠ 0x5F) := by
+      have := h.1; unfold NameStart at this
+      simp only [isAsciiAlpha, Bool.not_eq_true', Bool.or_eq_false_iff, Bool.and_eq_false_iff, decide_eq_false_iff_not]
+      omega
+    have hsplit := splitColon_none (c :: r) hcolon
+    have hnot : ¬ ((c :: r).take 8 = lit "android:") := by
+      intro he
+      have : (0x3A : Nat) ∈ (c :: r).take 8 := by rw [he]; decide
+      exact hcolon _ (List.mem_of_mem_take this) rfl
+    have hm : nameMatches (c :: r) = true := by
+      simp only [nameMatches, Bool.or_eq_true]; left
+      rw [List.all_eq_true]; intro x hx; exact (nameClass_iff x).2 (hall x hx)
+    have hnot' : ¬ (c :: List.take 7 r = lit "android:") := by simpa using hnot
+    unfold fixName
+    simp only [List.headD_cons, h80, if_false, hstart]
+    by_cases hu : uri.isEmpty = true
+    · simp [hnot', hu, hsplit, hm, bind, Except.bind]
+    · simp [hnot', hu, hm, bind, Except.bind]
+
+/-! ### attribute values: the string for the declared type (`attr_value_spec`) -/
+
+theorem attr_value_string (opq : Nat → Nat → Str) (d : Nat) (s : Str) : formatValue opq TYPE_STRING d s = s := by
+  simp [formatValue]
+
+theorem attr_value_boolean (opq : Nat → Nat → Str) (d : Nat) (s : Str) :
+    formatValue opq TYPE_INT_BOOLEAN d s = if d = 0 then lit "false" else lit "true" := by
+  simp [formatValue, TYPE_INT_BOOLEAN, TYPE_STRING, TYPE_ATTRIBUTE, TYPE_REFERENCE, TYPE_FLOAT, TYPE_INT_HEX]
+
+theorem attr_value_reference (opq : Nat → Nat → Str) (d : Nat) (s : Str) :
+    formatValue opq TYPE_REFERENCE d s = 0x40 :: ((if d / 2 ^ 24 = 1 then lit "android:" else []) ++ hex8U d) := by
+  simp [formatValue, TYPE_STRING, TYPE_ATTRIBUTE, TYPE_REFERENCE, fmtPackage]
+
+theorem attr_value_attribute (opq : Nat → Nat → Str) (d : Nat) (s : Str) :
+    formatValue opq TYPE_ATTRIBUTE d s = 0x3F :: ((if d / 2 ^ 24 = 1 then lit "android:" else []) ++ hex8U d) := by
+  simp [formatValue, TYPE_STRING, TYPE_ATTRIBUTE, fmtPackage]
+
+theorem attr_value_hex (opq : Nat → Nat → Str) (d : Nat) (s : Str) :
+    formatValue opq TYPE_INT_HEX d s = lit "0x" ++ hex8U d := by
+  simp [formatValue, TYPE_STRING, TYPE_ATTRIBUTE, TYPE_REFERENCE, TYPE_FLOAT, TYPE_INT_HEX]
+
+/-- decimal integers are printed as the two's-complement 32-bit value -/
+theorem attr_value_int_dec (opq : Nat → Nat → Str) (d : Nat) (s : Str) (h : d < 2 ^ 32) :
+    formatValue opq TYPE_INT_DEC d s = if d < 2 ^ 31 then decNat d else 0x2D :: decNat (2 ^ 32 - d) := by
+  have e : formatValue opq TYPE_INT_DEC d s = fmtIntDec d := by
+    simp [formatValue, TYPE_STRING, TYPE_ATTRIBUTE, TYPE_REFERENCE, TYPE_FLOAT, TYPE_INT_HEX, TYPE_INT_DEC, TYPE_INT_BOOLEAN,
+      TYPE_DIMENSION, TYPE_FRACTION, TYPE_FIRST_COLOR_INT, TYPE_LAST_COLOR_INT, TYPE_FIRST_INT, TYPE_LAST_INT]
+  rw [e]
+  unfold fmtIntDec
+  by_cases hd : d < 2 ^ 31
+  · have : ¬ d > 0x7FFFFFFF := by omega
+    simp [this, hd]
+  · have h1 : d > 0x7FFFFFFF := by omega
+    have h2 : 0x80000000 - d % 0x80000000 = 2 ^ 32 - d := by omega
+    simp [h1, hd, h2]
+
+/-- float, dimension and fraction renderings are delegated (property C27) -/
+theorem attr_value_delegated (opq : Nat → Nat → Str) (d : Nat) (s : Str) :
+    formatValue opq TYPE_FLOAT d s = opq TYPE_FLOAT d ∧ formatValue opq TYPE_DIMENSION d s = opq TYPE_DIMENSION d ∧
+    formatValue opq TYPE_FRACTION d s = opq TYPE_FRACTION d := by
+  simp [formatValue, TYPE_STRING, TYPE_ATTRIBUTE, TYPE_REFERENCE, TYPE_FLOAT, TYPE_INT_HEX, TYPE_INT_BOOLEAN, TYPE_DIMENSION,
+    TYPE_FRACTION]
+
+/-! ### string pool: length prefixes (`pool_roundtrip`, prefix part) -/
+
+theorem pool_len8_narrow (n x : Nat) (rest : Bytes) (h : n < 0x80) :
+    decodeLength (len8Narrow n ++ x :: rest) 0 false = .ok (n, 1) := by
+  have : n / 128 % 2 = 0 := by omega
+  simp [decodeLength, len8Narrow, le, this]
+
+theorem pool_len8_wide (n : Nat) (rest : Bytes) (h : n ≤ 0x7FFF) :
+    decodeLength (len8Wide n ++ rest) 0 false = .ok (n, 2) := by
+  simp [decodeLength, len8Wide, le]
+  have a : (n / 256 / 128 + 1) % 2 = 1 := by omega
+  have b : n / 256 % 128 * 256 + n % 256 = n := by omega
+  simp [a, b]
+
+theorem pool_len16_narrow (n x y : Nat) (rest : Bytes) (h : n < 0x8000) :
+    decodeLength (len16Narrow n ++ x :: y :: rest) 0 true = .ok (n, 2) := by
+  have h2 : n % 256 + 256 * (n / 256) = n := by omega
+  simp [decodeLength, len16Narrow, le, h2]
+  omega
+
+theorem pool_len16_wide (n : Nat) (rest : Bytes) (h : n ≤ 0x7FFFFFFF) :
+    decodeLength (len16Wide n ++ rest) 0 true = .ok (n, 4) := by
+  have h1 : (n / 65536 % 256 + 256 * (128 + n / 65536 / 256)) / 32768 % 2 = 1 := by omega
+  have h2 : (n / 65536 % 256 + 256 * (128 + n / 65536 / 256)) % 32768 * 65536 + (n % 256 + 256 * (n / 256 % 256)) = n := by omega
+  simp [decodeLength, len16Wide, le, h1, h2]
+
+/-! Non-vacuity -/
+example : LegalName [0x5F, 0x61, 0x2D, 0x39, 0x2E] ∧ LegalName [0x69, 0x6E, 0x74, 0x65, 0x6E, 0x74] := by
+  simp [LegalName, NameStart, NameChar]
+example : LegalValue [0x61, 0x20, 0x09, 0x3C, 0xE9, 0x1F600] := by
+  intro c hc; simp only [List.mem_cons, List.not_mem_nil, or_false] at hc
+  unfold XmlChar; omega
+example : ¬ LegalValue [0x61, 0, 0x62] := by
+  intro h; have := h 0 (by simp); unfold XmlChar at this; omega
+example : fixValue [0x61, 0, 0x62] = [0x61] ∧ fixValue [0x61, 1, 0x62] = [0x61, 0x5F, 0x62] := by decide
+example : TextsOkL [.text (lit "hello"), .elem (lit "b") [] [] [.text (lit "x")], .text (lit "tail")] := by
+  simp only [TextsOkL, TextsOk]; decide
+example : Normal (.elem (lit "a") [] [] [.text (lit "hello"), .elem (lit "b") [] [] [], .text (lit "tail")]) := by
+  simp only [Normal, NormalL]; decide
+example : norm (.elem [0x61] [] [] [.text [0x68], .text [], .text [0x69], .elem [0x62] [] [] [], .text [0x6A]])
+    = .elem [0x61] [] [] [.text [0x68, 0x69], .elem [0x62] [] [] [], .text [0x6A]] := by
+  simp [norm, normL, pushKids, push1, addText]
+example : decodeLength (len8Wide 300 ++ [7]) 0 false = .ok (300, 2) := by rfl
+example : decodeLength (len16Wide 0x12345 ++ []) 0 true = .ok (0x12345, 4) := by rfl
 
 end AgVerif.C26
